@@ -68,6 +68,12 @@ def run(tier, seed, replay=None):
     lps = {n: e2e.free_port() for n in CONNS}
     l1 = [{"name": "l-" + n, "type": "http", "bind": "%s:%d" % (LOOP, p)} for n, p in lps.items()]
     rules = [{"filter": "request.listener == \"l-%s\"" % n, "target": n} for n in lps]
+    # a SOCKS listener whose UDP associations go through the QUIC connector (as QUIC datagrams), and a UDP echo origin
+    import udp_world as uw
+    uorg = uw.UdpOrigin()
+    sq_port = e2e.free_port()
+    l1.append({"name": "s-quic", "type": "socks", "bind": "%s:%d" % (LOOP, sq_port)})
+    rules.append({"filter": "request.listener == \"s-quic\"", "target": "c_quic"})
     p1 = e2e.Proxy(driver, l1, conns, rules, metrics=True, name="c19-entry", history=1000)
     n_eval, dist = 0, collections.Counter()
     rounds = 1 if tier == "quick" else 3
@@ -94,6 +100,29 @@ def run(tier, seed, replay=None):
                     open_tunnels[n] = c
                 except OSError:
                     pass
+            # a UDP association through the QUIC connector, open across the outage, whose client keeps sending
+            assoc, assoc_state = None, {}
+            try:
+                assoc = uw.SocksUdpClient(sq_port)
+                if assoc.ok:
+                    assoc.send(LOOP, uorg.port, b"udp-before")
+                    r_ = assoc.recv(2.0)
+                    assoc_state["before"] = bool(r_ and r_[1] == b"udp-before")
+            except OSError as e:
+                assoc_state["error"] = str(e)
+            stop_udp = threading.Event()
+
+            def udp_sender(a):
+                i = 0
+                while not stop_udp.is_set():
+                    try:
+                        a.send(LOOP, uorg.port, b"udp-during-%d" % i)
+                    except OSError:
+                        return
+                    i += 1
+                    time.sleep(0.3)
+            if assoc is not None and assoc.ok:
+                threading.Thread(target=udp_sender, args=(assoc,), daemon=True).start()
             stop_stream = threading.Event()
 
             def streamer(c):
@@ -139,6 +168,21 @@ def run(tier, seed, replay=None):
                 if how not in ("eof", "reset"):
                     rep.fail("C19: %s: a tunnel through %s that was open when the exit proxy was killed is still open %.0fs later" % (phase, n, limit), {"kind": "failing-input", "phase": phase, "connector": n, "step": "open tunnel"})
                 e2e.close_quiet(c)
+            # the UDP association that was open across the outage ends too (its control connection is closed), although - or
+            # rather: while - its client keeps sending
+            if assoc is not None and assoc.ok:
+                n_eval += 1
+                left = max(1.0, 30 + 8.0 - (time.time() - t_down))
+                got_c, how_c = e2e.recv_all(assoc.ctl, timeout=left)
+                stop_udp.set()
+                dist["open-udp-association:c_quic:%s" % how_c] += 1
+                if not assoc_state.get("before"):
+                    rep.fail("C19: %s: the UDP association through c_quic did not work before the outage: %s" % (phase, assoc_state), {"kind": "failing-input", "phase": phase, "connector": "c_quic", "step": "udp before"})
+                elif how_c not in ("eof", "reset"):
+                    rep.fail("C19: %s: a UDP association through c_quic that was open when the exit proxy was killed, and whose client kept sending a datagram every 0.3 s, is still open %.0fs later (its datagrams go nowhere, nobody is told)" % (
+                        phase, time.time() - t_down), {"kind": "failing-input", "phase": phase, "connector": "c_quic", "step": "open udp association"})
+                assoc.close()
+            stop_udp.set()
             # ---- the upstream is back on the same ports ---------------------------------------------
             p2 = mk_p2()
             p2.start()
@@ -171,9 +215,30 @@ def run(tier, seed, replay=None):
                 if secs > RECOVER_LIMIT[n] or att["failed"] > ATTEMPT_LIMIT[n]:
                     rep.fail("C19: %s: %s served again only %.1fs after the restart, after %d failed and %d hanging attempts (limits %.0fs, %d failed)" % (phase, n, secs, att["failed"], att["hung"], RECOVER_LIMIT[n], ATTEMPT_LIMIT[n]),
                              {"kind": "failing-input", "phase": phase, "connector": n, "step": "recovery", "seconds": secs, "attempts": att})
+        # a new UDP association through the QUIC connector works again
+        n_eval += 1
+        try:
+            a2 = uw.SocksUdpClient(sq_port)
+            ok2 = False
+            if a2.ok:
+                for _ in range(3):
+                    a2.send(LOOP, uorg.port, b"udp-after")
+                    r_ = a2.recv(1.5)
+                    if r_ and r_[1] == b"udp-after":
+                        ok2 = True
+                        break
+            a2_src = "%s:%d" % a2.ctl.getsockname()
+            a2.close()
+        except OSError:
+            ok2, a2_src = False, None
+        dist["udp-after:%s" % ok2] += 1
+        if not ok2:
+            rep.fail("C19: after the outages a new UDP association through c_quic does not carry datagrams", {"kind": "failing-input", "phase": "end", "connector": "c_quic", "step": "udp after"})
         # the outage left error records, not live ghosts
         time.sleep(1.5)
-        live = p1.api("live")[1]
+        # (a SOCKS5 UDP association outlives its control connection until timeouts.udp - noted in DESIGN.md, not part of this
+        # property - so the association opened a moment ago is not a ghost of the outage)
+        live = [x for x in p1.api("live")[1] if x.get("source") != a2_src]
         n_eval += 1
         if live:
             rep.fail("C19: after the outages %d connections are still listed as live on the entry proxy" % len(live), {"kind": "failing-input", "phase": "end", "step": "live"})
@@ -183,12 +248,13 @@ def run(tier, seed, replay=None):
         p1.stop()
         p2.stop()
         org.close()
+        uorg.close()
         import shutil
         shutil.rmtree(p1.dir, ignore_errors=True)
         shutil.rmtree(p2.dir, ignore_errors=True)
     rep.coverage.update({
         "evaluations": n_eval, "distinct_nontrivial": len(dist),
-        "rule": "%d round(s) of: healthy probes through %s; tunnels open through http / socks / quic / direct (one streaming); SIGKILL of the exit proxy; probes during the outage; fate of the open tunnels; restart on the same ports; probes every 0.5 s until each connector serves again (limits %s, failed attempts %s); direct connector probed throughout" % (rounds, CONNS, RECOVER_LIMIT, ATTEMPT_LIMIT),
+        "rule": "%d round(s) of: healthy probes through %s; tunnels open through http / socks / quic / direct (one streaming) and a SOCKS5 UDP association through the QUIC connector whose client keeps sending; SIGKILL of the exit proxy; probes during the outage; fate of the open tunnels; restart on the same ports; probes every 0.5 s until each connector serves again (limits %s, failed attempts %s); direct connector probed throughout" % (rounds, CONNS, RECOVER_LIMIT, ATTEMPT_LIMIT),
         "input_distribution": dict(dist),
     })
     rep.assumptions = ["wall-clock limits: stateless connectors 3 s, QUIC idle timeout 30 s + 12 s"]
